@@ -21,8 +21,6 @@ def natList (s : String) : Option (List Nat) :=
 
 def errStr : PackErr → String
   | .keyError => "err:KeyError"
-  | .packError => "err:PackError"
-  | .assertion => "err:Assertion"
   | .valueError => "err:ValueError"
   | .fuel => "err:Fuel"
 
